@@ -283,7 +283,14 @@ func (this *badgerWAL) DeleteGroup() error {
 	if err := batch.Delete(this.snapshotKey()); err != nil {
 		return err
 	}
-	return batch.Flush()
+	if err := batch.Flush(); err != nil {
+		return err
+	}
+
+	// The instance stays in use (a partition keeps its store across unloadRaft and
+	// loadRaft): like a new one it holds the dummy entry at term 0. Without it
+	// every index query of a replica that comes back fails with "Entry not found".
+	return this.reset(make([]raftpb.Entry, 1))
 }
 
 func (this *badgerWAL) entryPrefix() []byte {
